@@ -226,7 +226,7 @@ class ContractionTree:
                 "ordered indices corresponding to array axes."
             )
 
-        if not isinstance(next(iter(size_dict.values()), 1), int):
+        if any(not isinstance(v, int) for v in size_dict.values()):
             # make sure we are working with python integers to avoid overflow
             # comparison errors with inf etc.
             self.size_dict = {k: int(v) for k, v in size_dict.items()}
